@@ -585,6 +585,105 @@ Section DigraphProofs.
   Proof.
     intros Hwf; split; [apply acyclic_rank, Hwf|intros (rank & Hr); exact (@rank_acyclic g rank Hr)].
   Qed.
+  (** * Further lemmas used by QueriesProofs.v *)
+
+  (** Induction on a path, peeling arcs off its left / right end. *)
+  Lemma path_ind_left (g : digraph) (v : A) (P : A -> Prop) :
+    (forall x, arc g x v -> P x) ->
+    (forall x y, arc g x y -> path g y v -> P y -> P x) ->
+    forall x, path g x v -> P x.
+  Proof.
+    intros Hstep Htrans x Hp. apply path_chain in Hp. destruct Hp as (l & Hne & Hc & Hl).
+    revert x Hne Hc Hl; induction l as [|a l IH]; intros x Hne Hc Hl; [contradiction|].
+    destruct Hc as [Hxa Hc]. rewrite last_cons in Hl. destruct l as [|c l].
+    - simpl in Hl; subst a. apply Hstep, Hxa.
+    - apply (Htrans x a Hxa).
+      + rewrite <- Hl. apply chain_path; [exact Hc|discriminate].
+      + apply IH; [discriminate|exact Hc|exact Hl].
+  Qed.
+
+  Lemma path_ind_right (g : digraph) (u : A) (P : A -> Prop) :
+    (forall y, arc g u y -> P y) ->
+    (forall x y, path g u x -> P x -> arc g x y -> P y) ->
+    forall y, path g u y -> P y.
+  Proof.
+    intros Hstep Htrans y Hp. apply rev_path in Hp.
+    apply (@path_ind_left (rev_graph g) u P); [| |exact Hp].
+    - intros x Hx. apply Hstep, rev_arc, Hx.
+    - intros x z Hxz Hzu HPz. apply (Htrans z x); [apply rev_path, Hzu|exact HPz|apply rev_arc, Hxz].
+  Qed.
+
+  Lemma desc_rank (g : digraph) a b :
+    wf g -> acyclic g -> arc g a b -> length (desc eqb g b) < length (desc eqb g a).
+  Proof.
+    intros Hwf Hac Hab.
+    assert (Hnd : NoDup (b :: desc eqb g b)).
+    { constructor; [|apply desc_nodup]. intros Hin. apply (desc_spec b b Hwf) in Hin.
+      exact (Hac b Hin). }
+    assert (Hincl : incl (b :: desc eqb g b) (desc eqb g a)).
+    { intros y [<-|Hy]; apply (desc_spec a); try exact Hwf.
+      - apply t_step, Hab.
+      - apply (desc_spec b y Hwf) in Hy. eapply t_trans; [apply t_step, Hab|exact Hy]. }
+    pose proof (NoDup_incl_length Hnd Hincl) as Hlen. simpl in Hlen. lia.
+  Qed.
+
+  Lemma desc_length_le (g : digraph) x : wf g -> length (desc eqb g x) <= length (verts g).
+  Proof.
+    intros Hwf. apply NoDup_incl_length; [apply desc_nodup|].
+    intros y Hy. apply (desc_in_verts x y Hwf Hy).
+  Qed.
+
+  Lemma desc_length_lt (g : digraph) x :
+    wf g -> acyclic g -> In x (verts g) -> length (desc eqb g x) < length (verts g).
+  Proof.
+    intros Hwf Hac Hx.
+    assert (Hnd : NoDup (x :: desc eqb g x)).
+    { constructor; [|apply desc_nodup]. intros Hin. apply (desc_spec x x Hwf) in Hin.
+      exact (Hac x Hin). }
+    assert (Hincl : incl (x :: desc eqb g x) (verts g)).
+    { intros y [<-|Hy]; [exact Hx|apply (desc_in_verts x y Hwf Hy)]. }
+    pose proof (NoDup_incl_length Hnd Hincl) as Hlen. simpl in Hlen. lia.
+  Qed.
+
+  Lemma last_in (l : list A) d : l <> [] -> In (last l d) l.
+  Proof.
+    destruct l as [|a l]; intros Hne; [contradiction|]. rewrite last_cons. apply last_in_cons.
+  Qed.
+
+  Lemma NoDup_app_intro (X : Type) (l1 l2 : list X) :
+    NoDup l1 -> NoDup l2 -> (forall x, In x l1 -> ~ In x l2) -> NoDup (l1 ++ l2).
+  Proof.
+    intros H1 H2 Hd; induction l1 as [|a l1 IH]; simpl; [exact H2|].
+    inversion H1 as [|? ? Hnin Hnd]; subst. constructor.
+    - intros Hin; apply in_app_or in Hin; destruct Hin as [Hin|Hin]; [exact (Hnin Hin)|].
+      apply (Hd a); [left; reflexivity|exact Hin].
+    - apply IH; [exact Hnd|]. intros x Hx; apply Hd; right; exact Hx.
+  Qed.
+
+  Lemma NoDup_flat_map (X Y : Type) (f : X -> list Y) (l : list X) :
+    NoDup l -> (forall x, In x l -> NoDup (f x)) ->
+    (forall x1 x2 y, In x1 l -> In x2 l -> In y (f x1) -> In y (f x2) -> x1 = x2) ->
+    NoDup (flat_map f l).
+  Proof.
+    intros Hnd Hf Hdisj; induction l as [|a l IH]; simpl; [constructor|].
+    inversion Hnd as [|? ? Hnin Hnd']; subst. apply NoDup_app_intro.
+    - apply Hf; left; reflexivity.
+    - apply IH; [exact Hnd'| |].
+      + intros x Hx; apply Hf; right; exact Hx.
+      + intros x1 x2 y H1 H2; apply Hdisj; right; assumption.
+    - intros y Hy Hy'. apply in_flat_map in Hy'. destruct Hy' as (x & Hx & Hyx).
+      assert (a = x) by (apply (Hdisj a x y); [left; reflexivity|right; exact Hx|exact Hy|exact Hyx]).
+      subst x. exact (Hnin Hx).
+  Qed.
+
+  Lemma NoDup_map_cons (X : Type) (c : X) (ll : list (list X)) :
+    NoDup ll -> NoDup (map (cons c) ll).
+  Proof.
+    induction 1 as [|l ll Hnin Hnd IH]; simpl; constructor; [|exact IH].
+    intros Hin. apply in_map_iff in Hin. destruct Hin as (l' & E & Hl').
+    inversion E; subst. exact (Hnin Hl').
+  Qed.
+
   (** * A boolean well-formedness checker (used to discharge [wf] on concrete graphs) *)
 
   Fixpoint nodupb (l : list A) : bool :=
